@@ -41,10 +41,16 @@ func runC18(o opts) error {
 		i  int
 		sc *c18.Scn
 	}
-	phase := func(legacy bool) {
+	// stalled: the scenarios that hold the library's string parser up through the process-wide hook; they run
+	// one at a time, after the others (no other parser is at work then)
+	phase := func(legacy, stalled bool) {
 		var wg sync.WaitGroup
 		ch := make(chan job)
-		for w := 0; w < 16; w++ {
+		workers := 16
+		if stalled {
+			workers = 1
+		}
+		for w := 0; w < workers; w++ {
 			wg.Add(1)
 			go func() {
 				defer wg.Done()
@@ -55,7 +61,7 @@ func runC18(o opts) error {
 			}()
 		}
 		for i, sc := range scns {
-			if sc.Legacy == legacy {
+			if sc.Legacy == legacy && (sc.Stall > 0) == stalled {
 				ch <- job{i, sc}
 			}
 		}
@@ -63,14 +69,15 @@ func runC18(o opts) error {
 		wg.Wait()
 	}
 	// The legacy-SGR quirk rewrites package state for good, so those scenarios run last.
-	phase(false)
+	phase(false, false)
+	phase(false, true)
 	for _, sc := range scns {
 		if sc.Legacy {
 			if err := c18.EnterLegacy(); err != nil {
 				return err
 			}
 			ctx.DropSessions()
-			phase(true)
+			phase(true, false)
 			break
 		}
 	}
